@@ -5,6 +5,7 @@ import (
 	"fmt"
 	"os"
 	"os/exec"
+	"runtime"
 	"strings"
 
 	"github.com/akalin/gopar/gf2p16"
@@ -17,6 +18,7 @@ func init() {
 	Register(&Profile{Name: "coder-schedules", Prop: "C12", Weight: 10, Quick: 12000, Thorough: 400000, Fn: coderSchedules})
 	Register(&Profile{Name: "par2-goroutine-invariance", Prop: "C12", Weight: 3, Quick: 1500, Thorough: 40000, Fn: par2GoroutineInvariance})
 	Register(&Profile{Name: "coder-race-batch", Prop: "C12", Weight: 1, Quick: 16, Thorough: 300, Fn: coderRaceBatch})
+	Register(&Profile{Name: "coder-free-long", Prop: "C12", Weight: 2, Quick: 320, Thorough: 12000, Fn: coderFreeLong})
 	Register(&Profile{Name: "coder-free", Prop: "C12-internal", Weight: 0, Fn: func(r *Run) {
 		if r.T.Bool(2, 3, "portable-kernels") {
 			// hook H3: with the portable kernels, every memory access of
@@ -466,6 +468,62 @@ func coderFree(r *Run, iters int) {
 		r.reportSched("ReconstructData (free-running)", vs, pan)
 	}
 	r.Class = "free"
+}
+
+// coderFreeLong: shards of 128 KiB to a few MiB coded by several
+// goroutines that run freely (really in parallel when the run's
+// GOMAXPROCS, drawn from the tape, exceeds 1), compared with the
+// single-goroutine result. The driven scheduler interleaves workers only
+// at yield points; this profile is the complement for whatever happens
+// between two yield points. Violations found here depend on timing and
+// may not replay.
+func coderFreeLong(r *Run) {
+	t := r.T
+	lens := []int{1 << 17, 1<<17 + 2, 1<<18 + 250, 1 << 19, 3 << 18, 1 << 20, 1<<20 + 4098, 2 << 20}
+	for it := 0; it < 12; it++ {
+		kind := t.Draw(2, "coder")
+		d := 1 + t.Draw(3, "data-shards")
+		p := 1 + t.Draw(3, "parity-shards")
+		length := lens[t.Draw(len(lens), "len")]
+		g := []int{2, 3, 4, 9, 16}[t.Draw(5, "goroutines")]
+		c := mk0(r, kind, d, p, g)
+		c1 := mk0(r, kind, d, p, 1)
+		data := genShards(r, d, length)
+		want := c1.GenerateParity(data)
+		for rep := 0; rep < 3; rep++ {
+			var got [][]byte
+			vs, pan := r.coderOp("generate-free-long", SchedSpec{Mode: sched.Record}, func() { got = c.GenerateParity(data) })
+			r.reportSched("GenerateParity (free-running, long shards)", vs, pan)
+			for i := range want {
+				if i >= len(got) || !bytes.Equal(want[i], got[i]) {
+					r.Violate("bytes-differ-from-single", "free-running GenerateParity(kind=%d d=%d p=%d len=%d g=%d): parity shard %d differs from the single-goroutine result", kind, d, p, length, g, i)
+					break
+				}
+			}
+		}
+		dm := cloneShards(data)
+		k := 1 + t.Draw(min(d, p), "missing")
+		for i := 0; i < k; i++ {
+			dm[i] = nil
+		}
+		ds := cloneShards(dm)
+		errS := c1.ReconstructData(ds, cloneShards(want))
+		var errG error
+		vs, pan := r.coderOp("reconstruct-free-long", SchedSpec{Mode: sched.Record}, func() { errG = c.ReconstructData(dm, cloneShards(want)) })
+		r.reportSched("ReconstructData (free-running, long shards)", vs, pan)
+		if (errS == nil) != (errG == nil) {
+			r.Violate("bytes-differ-from-single", "free-running ReconstructData(kind=%d d=%d p=%d len=%d g=%d): error %v, with one goroutine %v", kind, d, p, length, g, errG, errS)
+		}
+		for i := range ds {
+			if errS == nil && (dm[i] == nil || !bytes.Equal(dm[i], ds[i])) {
+				r.Violate("bytes-differ-from-single", "free-running ReconstructData(kind=%d d=%d p=%d len=%d g=%d): data shard %d differs from the single-goroutine result", kind, d, p, length, g, i)
+				break
+			}
+		}
+	}
+	r.Probe("free-running-long-shards")
+	r.Class = fmt.Sprintf("free-long gomaxprocs=%d", runtime.GOMAXPROCS(0))
+	r.Nontriv = true
 }
 
 // coderRaceBatch runs the -race build of the simulator on the
